@@ -48,7 +48,7 @@ def consistent_config(r, depth, families, protocol, glue="mixed", nservers=2, ma
             "kind": "%s, consistent depth %d %s %s glue=%s" % (mode, depth, families, protocol, glue)}
 
 
-def hostile_config(r, depth, protocol):
+def hostile_config(r, depth, protocol, limit=32):
     """a universe that misbehaves: alias loops (through and not through the question name), a lame zone (its servers
     do not serve it), a delegation to name servers that do not exist, a delegation whose in-zone server has no glue"""
     u = rc.build_universe(r, depth=depth, nservers=2, families="dual", glue="mixed")
@@ -82,7 +82,8 @@ def hostile_config(r, depth, protocol):
     if len(qs) > 40:
         qs = qs[-14:] + r.sample(qs[:-14], 26)
     return {"universe": uni, "zones": [u["hints"]], "protocol": protocol, "questions": qs, "expect_truth": False,
-            "names": [list(n) for n in u["names"]], "hostaddrs": u["hostaddrs"], "mode": "recursive", "kind": "hostile depth %d %s lame=%s" % (depth, protocol, ".".join(lame))}
+            "names": [list(n) for n in u["names"]], "hostaddrs": u["hostaddrs"], "mode": "recursive", "limit": limit,
+            "kind": "hostile depth %d %s lame=%s%s" % (depth, protocol, ".".join(lame), "" if limit == 32 else " recursion limit %d (model only)" % limit)}
 
 
 def local_config(r, depth, protocol, mode="recursive"):
@@ -160,6 +161,12 @@ def plans(r, tier):
         out.append((consistent_config(r, 2, "dual", r.choice(P), max_questions=8), 3, 1, 1))
         for i in range(4):
             out.append((hostile_config(r, r.choice([2, 3]), r.choice(P)), 2, 2, 1))
+        # the recursion limit itself (the code's limit of 32 is out of reach of an exhaustive exploration: the model is
+        # explored with a limit of 2 and 3; these configurations are not replayed into the real resolver)
+        for lim in (2, 3):
+            c = consistent_config(r, 2, "dual", r.choice(P), max_questions=40)
+            c.update({"limit": lim, "expect_truth": False, "kind": c["kind"] + ", recursion limit %d (model only)" % lim})
+            out.append((c, 1, 1, 0))
         for i in range(2):
             out.append((consistent_config(r, r.choice([2, 3]), "dual", "prefer-v4", max_questions=40, mode="forwarding"), 3, 2, 1))
         for mode in ("recursive", "forwarding", "recursive"):
@@ -181,7 +188,7 @@ def model_check(v, pid, wd, r, tier, only=None, plan=None):
         path = os.path.join(wd, "mcrec-config.ndjson")
         write_ndjson(path, [cfg])
         res = tlc("MCRecursive", None, env={"CONFIG": path}, timeout=3000, xmx="10g", workers=8 if tier == "quick" else None,
-                  cfg_text=CFG % {"limit": 32, "ask": ask, "faults": faults, "forget": forget,
+                  cfg_text=CFG % {"limit": cfg.get("limit", 32), "ask": ask, "faults": faults, "forget": forget,
                                   "invs": invs + (" Inv_Witness" if witness else ""), "props": props})
         v.add_tlc(res)
         for x in set(res.tagged_raw("PC")) | set(res.tagged_raw("OUT")):
@@ -258,7 +265,7 @@ def replay(v, pid, wd, r, tier, only=None, name="mcreplay", plan=None):
     scripted from the same universe (ReplyTable).  The runs are validated like every other recorded resolution
     (ResolveTrace: the declarative properties; RecursiveTrace: behaviour of the state machine)."""
     cfgs = [c for (c, _, _, _) in (plan if plan is not None else plans(r, tier))
-            if not only or any(o in c["kind"] for o in only)]
+            if (not only or any(o in c["kind"] for o in only)) and c.get("limit", 32) == 32]
     items = []
     for c in cfgs:
         names = {tuple(n) for n in c["names"]} | {tuple(q["name"]) for q in c["questions"]}
